@@ -36,6 +36,16 @@ theorem hasStr_iff (l : List Str) (u : Str) : hasStr l u = true ↔ u ∈ l := b
 theorem hasStr_false_iff (l : List Str) (u : Str) : hasStr l u = false ↔ u ∉ l := by
   rw [← Bool.not_eq_true, hasStr_iff]
 
+/-! ## the chains -/
+
+theorem Ep.chain_eq (e : Ep) : e.chain = [Sid.ep e.id, Sid.cl e.owner] := rfl
+theorem Ep.hcChain_eq (e : Ep) (g : Nat) : e.hcChain g = [Sid.hc e.id g, Sid.ep e.id, Sid.cl e.owner] := rfl
+theorem reqChain_eq (r eid o : Nat) : reqChain r eid o = [Sid.rq r, Sid.ep eid, Sid.cl o] := rfl
+theorem droppedCancels_eq (o : Nat) (w : List Str) (eps : List Ep) :
+    droppedCancels o w eps = (eps.filter (isDropped o w)).map (fun e => Sid.ep e.id) := rfl
+theorem dropEp_eq (o : Nat) (w : List Str) (e : Ep) :
+    dropEp o w e = if isDropped o w e then { e with inMap := false } else e := rfl
+
 /-! ## strings.ToLower is idempotent -/
 
 theorem lowerByte_idem (b : UInt8) : lowerByte (lowerByte b) = lowerByte b := by
@@ -304,8 +314,7 @@ theorem dropEp_hcGen (o : Nat) (w : List Str) (e : Ep) : (dropEp o w e).hcGen = 
 
 /-- the state after the first loop of `syncEndpoints` -/
 def dropPhase (st : State) (o : Nat) (wanted : List Str) : State :=
-  { st with eps := st.eps.map (dropEp o wanted),
-            cancels := (st.eps.filter (isDropped o wanted)).map (fun e => Sid.ep e.id) ++ st.cancels }
+  { st with eps := st.eps.map (dropEp o wanted), cancels := droppedCancels o wanted st.eps ++ st.cancels }
 
 theorem syncEndpoints_eq (st : State) (o : Nat) (servers : List (Str × Bool)) :
     syncEndpoints st o servers =
@@ -1718,7 +1727,7 @@ theorem syncEndpoints_noop (st : State) (o : Nat) (servers : List (Str × Bool))
       intro e he hdp
       obtain ⟨a, b, c⟩ := (isDropped_iff _ _ e).1 hdp
       exact c (hsame.1 e he a b).1
-    rw [h1, h2]
+    rw [h1, droppedCancels_eq, h2]
     rfl
   rw [hd]
   have : ∀ (l : List (Str × Bool)), (∀ sv, sv ∈ l → sv.1 ∈ servers.map (·.1)) →
